@@ -189,4 +189,120 @@ example : (extractQ (mkG "1/".toList [] {})).2 = (.value 1, .unchanged) ∧ (ext
     (extractQ (mkG "17,5".toList [] {})) = ({ rest := ",5".toList, done := ['7', '1'] }, .value 17, .value 1) ∧
     (extractQ (mkG "3/-6".toList [] {})).2 = (.value 3, .value (-6)) := by decide +kernel
 
+/-! ## (c) round trip -/
+
+section
+open List
+
+/-- `roundtripZ_partial`: for every integer z, every output stream `fo` (any basefield bits, showbase, showpos, uppercase,
+    any adjustfield, any fill) whose width is ≤ 0 (no padding), and every input stream `fi` whose basefield names — with
+    exactly one bit — the base `fo` prints in (more than one basefield bit on `fo` = decimal): `in >> y` after `out << z`
+    stores y = z, consumes the whole text and leaves the stream good(), EXCEPT for a hex output stream with showbase:
+    a hex input stream does not accept the "0x" it writes (it reads 0 and stops at the x; see the example after
+    `extractZ_spec`), unlike `std::num_get`.  (Octal with showbase is fine: the leading 0 is an octal digit.)
+    FULL STATEMENT (the part not proved): the same conclusion when `fi` has no single basefield bit (auto-detection),
+    under the condition `fo.outBase = 10 ∨ fo.showbase` — decimal text needs no prefix, hex/octal text is only
+    recognised with the prefix showbase writes; and the mpq analogue (numerator and denominator each, denominator > 0).
+    Both are exercised by the correspondence run only (each direction separately, on the same texts). -/
+theorem roundtripZ_partial (fo fi : Fmt) (z w : Int) (hw : w ≤ 0) (fill : Char) (hfi : fi.base? = some fo.outBase)
+    (hx : ¬ (fo.showbase = true ∧ fo.hexOnly = true)) :
+    extractZ (mkG (insertZ { fmt := fo, width := w, fill := fill } z).out [] fi) =
+      (mkG [] (insertZ { fmt := fo, width := w, fill := fill } z).out.reverse fi, .value z) := by
+  have hb := outBase_cases fo
+  obtain ⟨hall, hval⟩ := natDigits_spec fo.outBase hb fo.outUpper z.natAbs
+  have hdne := natDigits_ne_nil fo.outBase fo.outUpper z.natAbs
+  generalize hds : natDigits fo.outBase fo.outUpper z.natAbs = ds at *
+  -- the prefix is empty or the octal "0"
+  have hpre : prefixStr fo (decide (z = 0)) = [] ∨ (prefixStr fo (decide (z = 0)) = ['0'] ∧ fo.outBase = 8) := by
+    unfold prefixStr Fmt.outBase
+    by_cases hs : fo.showbase = true
+    · have hh : fo.hexOnly = false := by cases h : fo.hexOnly <;> simp_all
+      simp only [hs, if_true, hh, Bool.false_eq_true, if_false]
+      split_ifs <;> simp_all
+    · simp [hs]
+  generalize hp : prefixStr fo (decide (z = 0)) = pre at *
+  have h0 : digitTest fo.outBase '0' = true := by rcases hb with h | h | h <;> rw [h] <;> decide
+  have hallbd : ∀ c ∈ pre ++ ds, digitTest fo.outBase c = true := by
+    intro c hc
+    rcases mem_append.mp hc with h | h
+    · rcases hpre with rfl | ⟨rfl, _⟩
+      · simp at h
+      · simp only [mem_singleton] at h; rw [h]; exact h0
+    · exact hall c h
+  have hvalbd : digitsVal fo.outBase (pre ++ ds) = z.natAbs := by
+    rcases hpre with rfl | ⟨rfl, _⟩
+    · simpa using hval
+    · have : digitsVal fo.outBase (['0'] ++ ds) = digitsVal fo.outBase ds := by
+        simp [digitsVal, show Scanf.digitValue '0' = 0 by decide]
+      rw [this, hval]
+  have hbdne : pre ++ ds ≠ [] := by simp [hdne]
+  -- the sign
+  have hsg : signStr fo (decide (z < 0)) = [] ∧ decide (z < 0) = false ∨ signStr fo (decide (z < 0)) = ['-'] ∧ decide (z < 0) = true ∨
+      signStr fo (decide (z < 0)) = ['+'] ∧ decide (z < 0) = false := by
+    unfold signStr
+    by_cases hz : z < 0
+    · simp [hz]
+    · by_cases hsp : fo.showpos = true <;> simp [hz, hsp]
+  generalize hsgs : signStr fo (decide (z < 0)) = sg at *
+  -- the text written
+  have hge : ∀ c ∈ sg ++ (pre ++ ds), 1 ≤ c.toNat := by
+    intro c hc
+    rcases mem_append.mp hc with h | h
+    · rcases hsg with ⟨rfl, _⟩ | ⟨rfl, _⟩ | ⟨rfl, _⟩ <;> simp at h <;> rw [h] <;> decide
+    · have := digit_ge_48 _ hb c (hallbd c h); omega
+  have htext : (insertZ { fmt := fo, width := w, fill := fill } z).out = sg ++ (pre ++ ds) := by
+    rw [insertZ_layout]
+    simp only [hds, hp, hsgs]
+    have hpad : (w - ((sg.length + pre.length + ds.length : Nat) : Int)).toNat = 0 := by omega
+    have hl : fieldLayout fo w fill sg pre ds = sg ++ (pre ++ ds) := by
+      unfold fieldLayout
+      simp only [hpad, replicate_zero, append_nil, nil_append]
+      split_ifs <;> simp
+    rw [hl, cstr_id _ hge]
+    simp [OStream.write, OStream.good]
+  rw [htext, extractZ_spec]
+  -- no white space in front
+  have hws : wsPrefix fi (sg ++ (pre ++ ds)) = [] := by
+    unfold wsPrefix
+    split
+    · have hhead : ∀ c, (sg ++ (pre ++ ds)).head? = some c → isspace c = false := by
+        intro c hc
+        have hmem : c ∈ sg ++ (pre ++ ds) := mem_of_mem_head? hc
+        rcases mem_append.mp hmem with h | h
+        · rcases hsg with ⟨rfl, _⟩ | ⟨rfl, _⟩ | ⟨rfl, _⟩ <;> simp at h <;> rw [h] <;> decide
+        · have := digit_ge_48 _ hb c (hallbd c h)
+          by_contra hsp
+          have := (isspace_iff c).mp (by simpa using hsp)
+          omega
+      cases hT : sg ++ (pre ++ ds) with
+      | nil => rfl
+      | cons a t =>
+        have := hhead a (by rw [hT]; rfl)
+        simp [this]
+    · rfl
+  unfold specZ
+  simp only [hws, length_nil, drop_zero, reverse_nil]
+  rw [numSpec_fixed_roundtrip fi fo.outBase hb hfi sg (pre ++ ds) (decide (z < 0)) hsg hbdne hallbd, hvalbd]
+  have hv : (if decide (z < 0) = true then -((z.natAbs : Nat) : Int) else ((z.natAbs : Nat) : Int)) = z := by
+    by_cases hz : z < 0
+    · rw [if_pos (by simpa using hz)]; omega
+    · rw [if_neg (by simpa using hz)]; omega
+  simp only [hv]
+  generalize sg ++ (pre ++ ds) = T
+  simp [after, mkG]
+
+end
+
+-- non-vacuity: -255 written by a hex upper-case showpos stream and read by a hex stream; octal with showbase
+example : extractZ (mkG (insertZ { fmt := { dec := false, hex := true, uppercase := true, showpos := true } } (-255)).out [] { dec := false, hex := true }) =
+    (mkG [] "-FF".toList.reverse { dec := false, hex := true }, .value (-255)) := by decide +kernel
+example : extractZ (mkG (insertZ { fmt := { dec := false, oct := true, showbase := true } } 15).out [] { dec := false, oct := true }) =
+    (mkG [] "017".toList.reverse { dec := false, oct := true }, .value 15) := by decide +kernel
+-- the exception is real: hex with showbase does not come back through a hex stream
+example : (extractZ (mkG (insertZ { fmt := { dec := false, hex := true, showbase := true } } 31).out [] { dec := false, hex := true })).2 = .value 0 := by
+  decide +kernel
+-- auto-detection reads it
+example : (extractZ (mkG (insertZ { fmt := { dec := false, hex := true, showbase := true } } 31).out [] { dec := false })).2 = .value 31 := by
+  decide +kernel
+
 end Mpir.CxxIo
